@@ -90,6 +90,26 @@ def genConcatCase : G (List String) := do
   pure [s!"P {o} a:{all};" ++ ";".intercalate (pics.map fun _ => "n"),
         s!"P {o} " ++ ";".intercalate (pics.map fun p => s!"r:{hexOf p}")]
 
+/-- a picture of more than 64 KiB followed by further pictures in the same reader (and, second line, one reader per picture):
+a small picture whose header carries some 60,000 extra-information bytes (9 bits each); ending at different bit phases -/
+def bigConcatCases (count : Nat) : G (List String) := do
+  let mut out : List String := []
+  for k in [0:count] do
+    let v := k % 2
+    let q ← range 2 20
+    let nextra ← range 59000 64000
+    let big ← genPic { flavour := v } 0 (32 + 16 * (k % 3), 16) k true
+    let big : PicD := match big.hdr with
+      | .sorenson h => { big with hdr := .sorenson { h with quant := q, extra := (List.range nextra).map fun i => (i * 7 + k) % 256 } }
+      | _ => big
+    let small ← genPic { flavour := v } 1 (32 + 16 * (k % 3), 16) (k + 1) true
+    let small2 ← genPic { flavour := v } 1 (32 + 16 * (k % 3), 16) (k + 2) true
+    let pics := [big, small, small2]
+    let all := String.join (pics.map fun p => hexOf p)
+    out := (s!"P 1 " ++ ";".intercalate (pics.map fun p => s!"r:{hexOf p}")) ::
+           (s!"P 1 a:{all};" ++ ";".intercalate (pics.map fun _ => "n")) :: out
+  pure out.reverse
+
 /-- all 31 x 4 quantizer updates: 16x16 Sorenson I pictures whose single INTRA+Q macroblock carries one level-5
 coefficient in block Y1 and a second macroblock-free tail (the observation route of C11) -/
 def dquantCases : List String :=
@@ -125,6 +145,30 @@ def sizeCases (W H : Nat) : G (List String) := do
       let p ← genPic { flavour := v } 0 (w, h) (w + h) true
       out := s!"PP 1 {hexOf p}" :: out
   pure out.reverse
+
+/-- every escape form at the ends of its level range (and just inside), both signs, three quantizers: one-macroblock intra pictures
+whose first block carries the event at zig-zag position 1 and the last block at position 63 -/
+def escLevelCases : List String := Id.run do
+  let mut out : List String := []
+  for (fl, form, levels) in [((0 : Nat), Form.esc8, [(127 : Int), 126, 100, 2, 1]), (2, Form.esc8, [127, 126, 100, 2, 1]),
+                             (1, Form.esc7, [63, 62, 33, 2, 1]), (1, Form.esc11, [1023, 1022, 529, 528, 128, 64, 1])] do
+    for lvl in levels do
+      for sign in [(1 : Int), -1] do
+        for q in [1, 8, 23, 31] do
+          let e : Event := { run := 0, level := sign * lvl, form := form }
+          let e63 : Event := { run := 62, level := sign * lvl, form := form }
+          let b0 : BlockD := { dc := some 100, events := [e] }
+          let b5 : BlockD := { dc := some 60, events := [e63] }
+          let bz : BlockD := { dc := some 128 |>.map (fun _ => 77) }
+          let mb : MbD := { stuffing := 0, kind := .coded .intra 0 (0, 0) ((0, 0), (0, 0), (0, 0)) [b0, bz, bz, bz, bz, b5] }
+          let hdr : HdrD := if fl = 2 then .base { tr := 1, srcFmt := 1, inter := false, quant := q, cpm := none, extra := [] }
+            else .sorenson { version := fl, tr := 1, sizeCode := 0, customW := 16, customH := 16, picType := 0, deblock := false,
+                             quant := q, extra := [] }
+          -- the baseline sub-QCIF picture has 48 macroblocks: the first one carries the events, the others are plain
+          let plain : MbD := { stuffing := 0, kind := .coded .intra 0 (0, 0) ((0, 0), (0, 0), (0, 0)) [bz, bz, bz, bz, bz, bz] }
+          let mbs := if fl = 2 then mb :: List.replicate 47 plain else [mb]
+          out := s!"P {if fl < 2 then 1 else 0} d:{hexOf { hdr := hdr, mbs := mbs }}" :: out
+  return out.reverse
 
 /-- pictures whose declared width or height sits at the top of the 16-bit range (the other dimension small): header plus the
 first macroblocks; both Sorenson versions -/
@@ -207,6 +251,8 @@ def stressCases : G (List String) := do
 
 def runGen (kind : String) (seed count : Nat) : List String :=
   if kind == "stress" then (stressCases.run (seed * 2654435761 + 7)).1 else
+  if kind == "esclevels" then escLevelCases else
+  if kind == "bigconcat" then ((bigConcatCases count).run (seed * 2654435761 + 77)).1 else
   if kind == "edgesizes" then ((edgeSizeCases false count).run (seed * 2654435761 + 31)).1 else
   if kind == "edgesizespp" then ((edgeSizeCases true count).run (seed * 2654435761 + 31)).1 else
   if kind == "sizes" then ((sizeCases count count).run (seed * 2654435761 + 99)).1 else
